@@ -444,11 +444,14 @@ def srv_sexp(ds):
 def run(ctx):
     ctx.rule = ("seeded random abstract specs (groups to depth 3, dimensions at any level, repeated short names, "
                 "named/anonymous/mixed Dims, all numeric types, attributes of every atomic type in the three value "
-                "syntaxes with 0-3 values, Maps) rendered by harness/oracle/refdap4.py; a spec is non-trivial when it "
-                "has a group or more than one variable; distinct by document text; plus single-attribute documents and "
-                "server-side datasets with groups")
+                "syntaxes with 0-3 values, Maps; two sub-streams with variable, group and dimension names that DAP "
+                "quoting changes: blank, brackets, '.', '&', '%', non-ASCII) rendered by harness/oracle/refdap4.py; a "
+                "spec is non-trivial when it has a group or more than one variable; distinct by document text; plus "
+                "single-attribute documents and server-side datasets with groups, every second one with attributes "
+                "(ints, floats, strings, numpy scalars, lists) and Maps")
     ctx.assumptions = ["xml.etree.ElementTree (text -> element tree) is trusted: the model receives ET's tree",
-                       "names are ASCII without whitespace; attribute names avoid pydap's own keys path/Maps/checksum",
+                       "names do not start with 'dap4' and contain no '/'; strings travel as UTF-8 bytes; attribute "
+                       "names avoid pydap's own keys path/Maps/checksum",
                        "float(text) is Python's: float attribute texts are compared as repr(float)"]
     ctx.proof_phase()
     fns = load()
